@@ -252,6 +252,31 @@ OnSimple(o, ln) ==
            ELSE Reproduces(o.cf, ln.evs),
         "TraceNotReproduced", "sim()")
 
+\* C14 on bursts far beyond any small count: the input trace and the returned traces are run-length
+\* encoded (a run is a distinct event with its multiplicity n, in order of first appearance; whether the trace is sorted by time is computed by the harness over the whole trace); the bag comparison adds up multiplicities
+Mult(x) == IF "n" \in DOMAIN x THEN x.n ELSE 1
+RunKey(r) == [c |-> r.c, e |-> r.e, t |-> r.t]
+ExpectedRuns(cf) ==
+  LET E == Expected(cf) IN
+  [i \in 1..Len(E) |-> [c |-> E[i].c, e |-> E[i].e, t |-> E[i].t, n |-> Mult(cf.trace[(i + 1) \div 2])]]
+RECURSIVE RunSum(_, _, _)
+RunSum(q, k, i) == IF i = 0 THEN 0 ELSE (IF RunKey(q[i]) = k THEN Mult(q[i]) ELSE 0) + RunSum(q, k, i - 1)
+RECURSIVE RunTotal(_, _)
+RunTotal(q, i) == IF i = 0 THEN 0 ELSE Mult(q[i]) + RunTotal(q, i - 1)
+SameRuns(a, b) ==
+  \A k \in {RunKey(a[i]) : i \in 1..Len(a)} \cup {RunKey(b[i]) : i \in 1..Len(b)} :
+    RunSum(a, k, Len(a)) = RunSum(b, k, Len(b))
+OnOutRle(o, ln) ==
+  LET want == SelectSeq(ExpectedRuns(o.cf), LAMBDA e : ~ln.oc \/ e.c)
+      ok == /\ SameRuns(SelectSeq(ln.runs, IsTunnel), want)
+            /\ ln.sorted
+            /\ \A i \in 1..Len(ln.runs) :
+                  /\ ~ln.runs[i].p /\ ln.runs[i].n >= 1
+                  /\ ln.runs[i].e \in {"TunnelSent", "TunnelRecv", "NormalSent", "NormalRecv"}
+                  /\ (ln.oc => ln.runs[i].c) /\ (ln.ona => IsTunnel(ln.runs[i]))
+            /\ ln.total = RunTotal(ln.runs, Len(ln.runs))
+  IN SFlag(o, NoMachines(o.cf) => ok, "TraceNotReproduced", "burst")
+
 OnBounded(o, ln) ==
   LET o1 == SFlag(o, ln.mtl > 0 => ln.len <= ln.mtl, "Unbounded", "trace-length")
       o2 == SFlag(o1, ln.max_it > 0 => ln.it <= ln.max_it, "Unbounded", "iterations")
@@ -266,6 +291,7 @@ SimObsStep(o, ln) ==
     [] ln.k = "rerun"    -> SFlag(o, ln.same, "NotReproducible", "")
     [] ln.k = "filtered" -> OnFiltered(o, ln)
     [] ln.k = "simple"   -> OnSimple(o, ln)
+    [] ln.k = "outrle"   -> OnOutRle(o, ln)
     [] ln.k = "bounded"  -> OnBounded(o, ln)
     [] ln.k = "panic"    -> SFlag(o, FALSE, "Panic", "")
     [] OTHER -> o                       \* pick / blk / repl / recv / agg: mechanism diagnostics
